@@ -22,6 +22,10 @@ func TestMain(m *testing.M) {
 		os.Exit(0)
 	}
 	os.Args = []string{os.Args[0], "-test.run=^TestEntry$", "-test.timeout=0"}
+	if cp := os.Getenv("DSIM_COVERPROFILE"); cp != "" {
+		// reach measurement (tools/reach.sh): binary built with -cover -coverpkg=<library packages>
+		os.Args = append(os.Args, "-test.coverprofile="+cp)
+	}
 	flag.Parse()
 	code := 0
 	switch args[0] {
